@@ -574,6 +574,42 @@ func runC28(c *core.Ctx) {
 		}
 	}
 	c.Floor("era predicate calls in eth.SyncBlockHeader", nPred, 3)
+	// the era predicates themselves: true only from the configured fork height on (h.Number >= height for the node's network)
+	for _, spec := range []struct{ fn, getter string }{{"isArrowGlacier", "GetEth4345Height"}, {"isLondon", "GetEth1559Height"}} {
+		pf := c.Fn(pkEthHS, spec.fn)
+		if pf == nil {
+			continue
+		}
+		isNumber := func(v ssa.Value) bool {
+			cl := calleeNamed(v, "Uint64")
+			return cl != nil && isFieldNamed(cl.Common().Args[0], "Number")
+		}
+		isHeight := func(v ssa.Value) bool {
+			cl := calleeNamed(v, spec.getter)
+			return cl != nil && isFieldNamed(cl.Common().Args[0], "NetworkId")
+		}
+		g := relGuard("h.Number >= "+spec.getter+"(NetworkId)", isNumber, isHeight, token.GEQ)
+		trueS := ir.BoolReturnSinks(pf, 0, true)
+		if spec.fn == "isLondon" {
+			// isLondon is also true for a header that carries a base fee, and honours the test switch
+			g = eng.NamedGuard{Name: "h.BaseFee != nil ∨ h.Number >= GetEth1559Height(NetworkId) ∨ test switch", G: ir.Or(g.G,
+				func(cd ir.Cond) (bool, bool) {
+					x, neq, ok := ir.NilCmp(cd.V)
+					if ok && isFieldNamed(x, "BaseFee") {
+						return true, neq
+					}
+					return false, false
+				},
+				func(cd ir.Cond) (bool, bool) {
+					if globalName(cd.V) == "isTest" {
+						return true, true
+					}
+					return false, false
+				})}
+		}
+		c.Floor("true answers of "+spec.fn, len(trueS), 1)
+		eng.Dominates(c, "C28.era-table", pf, g, trueS, spec.fn+" answers true", nil)
+	}
 	// VerifyGaslimit
 	if f := c.Fn(pkEthHS, "VerifyGaslimit"); f != nil {
 		succ := ir.SuccessSinks(f)
